@@ -37,6 +37,8 @@ package capnp
 //@   assert before "s.writeRawPointer(off, rawDoubleFarPointer(padSeg.id, padAddr))" dfalign: padAddr&7 == 0 && M(padAddr)+16 <= M(len(padSeg.data))
 //@   assert before "s.writeRawPointer(off, rawDoubleFarPointer(padSeg.id, padAddr))" dftag: rawPointer(LE64(padSeg.data, int(padAddr)+8)) == srcRaw && sOff(srcRaw) == 0
 //@   assert before "s.writeRawPointer(off, rawDoubleFarPointer(padSeg.id, padAddr))" dfpad: sKind(rawPointer(LE64(padSeg.data, int(padAddr)))) == 2 && !sFarDouble(rawPointer(LE64(padSeg.data, int(padAddr)))) &&
-//@     sFarSeg(rawPointer(LE64(padSeg.data, int(padAddr)))) == uint32(src.seg.id) && implies(srcAddr&7 == 0, 8*M(sFarPadWords(rawPointer(LE64(padSeg.data, int(padAddr))))) == M(srcAddr))
+//@     sFarSeg(rawPointer(LE64(padSeg.data, int(padAddr)))) == uint32(src.seg.id)
+//@   -- ... and designates the object's own address (for a composite list: its tag word), in plain machine arithmetic
+//@   assert before "s.writeRawPointer(off, rawDoubleFarPointer(padSeg.id, padAddr))" dfpadaddr: implies(srcAddr&7 == 0, address(sFarPadWords(rawPointer(LE64(padSeg.data, int(padAddr)))))<<3 == srcAddr)
 //@   assert after "s.writeRawPointer(off, rawDoubleFarPointer(padSeg.id, padAddr))" dfptr: sKind(rawPointer(LE64(s.data, int(off)))) == 2 && sFarDouble(rawPointer(LE64(s.data, int(off)))) &&
 //@     sFarSeg(rawPointer(LE64(s.data, int(off)))) == uint32(padSeg.id) && 8*M(sFarPadWords(rawPointer(LE64(s.data, int(off))))) == M(padAddr)
